@@ -237,4 +237,11 @@ def cases(ctx):
                 new = relayout(rng, src)
             out.append({"kind": kind, "rom": rom, "src": new, "files": files,
                         "twin": {"src": src, "rom": rom, "files": {}}, "spec": {"t": "twin", "labels": True}})
+    # letter case of hexadecimal digits in literals written with redundant leading zeros, as whole operands, in data and in *=
+    for lower, upper in (("lda 0x00fe\nsta 0x0000ab,x\nadc #0x00cd\n", "lda 0x00FE\nsta 0x0000AB,x\nadc #0x00CD\n"),
+                         (".dw 0x00fe, 0x0abc\n.dl 0x00beef\nlda.w 0x00fa\n", ".dw 0x00FE, 0x0ABC\n.dl 0x00BEEF\nlda.w 0x00FA\n"),
+                         ("and 0x000c\nora 0x00ff\njmp 0x00c0de\n", "AND 0x000C\nORA 0x00FF\nJMP 0x00C0DE\n")):
+        for rom, lo_org, up_org in (("low", "0x00b0c0", "0x00B0C0"), ("high", "0x40ab00", "0x40AB00")):
+            out.append({"kind": "hex-case-padded", "rom": rom, "src": f"*={up_org}\n{upper}end:\n.dl end\n", "files": {},
+                        "twin": {"src": f"*={lo_org}\n{lower}end:\n.dl end\n", "rom": rom, "files": {}}, "spec": {"t": "twin", "labels": True}})
     return out
